@@ -41,6 +41,13 @@ LOOP_FAIL = {
         S([['ctxinc', 'i']], ['branch', 'i', {'1': ['continue', 1, [], {}], '2': ['wait', 1, None, None]}, ['raise', 'late']]),
     ]
 }
+from ..models import ports as pm  # noqa: E402
+
+TICKET = {
+    'steps': [S([['out_input', 'first', 'n']], ['wait', 1, None, None]), S([['out_input', 'second', 'n'], ['ctxinc', 'i']], ['branch', 'i', {'1': ['wait', 1, None, None]}, ['continue', 2, [], {}]]), S([['out_input', 'third', 'n']], ['value', 'end'])],
+    'spec': {'inputs': pm.ns({'n': pm.port(required=False, default=['counter', 100])})},
+    'inputs': {},
+}
 WC_CASES = [
     {'outline': [['step', 'a'], ['while', 'p', [['step', 'b'], ['if', [['q', [['step', 'c']]]], [['step', 'd']]]]], ['step', 'a']],
      'behaviour': {'rets': {}, 'preds': {'p': [True, True, True, False], 'q': [True, False, True]}, 'bodies': {'b': [['out', 'o.b', 1]], 'c': [['ctx', 'seen', [1, 2]]]}}},
@@ -65,7 +72,7 @@ def _run_case(case):
 
 def enumerate_cases(tier, scope):
     kmax = int(scope[3])
-    bases = [{'program': LOOP}, {'program': LOOP_FAIL}, {'program': gen.CATALOGUE['waitwait']}, {'program': gen.CATALOGUE['chain']}] + WC_CASES
+    bases = [{'program': LOOP}, {'program': LOOP_FAIL}, {'program': gen.CATALOGUE['waitwait']}, {'program': gen.CATALOGUE['chain']}, {'program': TICKET}] + WC_CASES
     for base in bases:
         n = _n_entries(base)
         for k in range(1, kmax + 1):
@@ -122,6 +129,7 @@ def strategy(tier):
 
 
 def execute(case):
+    pm.COUNTER[0] = 0
     viol = []
     classes = []
 
